@@ -155,9 +155,19 @@ Section Run.
   Definition init_state (start nlines : nat) : state :=
     mk_state (map (fun i => mk_origin false start i) (seq 0 nlines))
              [(start, map (fun i => (i, i)) (seq 0 nlines))] 0.
+  (** One call of [FileAnnotator::compute] = [process_commits]: the count of unresolved
+      roots is reset, then the graph stream of this call is walked. *)
+  Definition run_phase (st : state) (nodes : list node) : state :=
+    process_nodes (mk_state (st_olm st) (st_srcs st) 0) nodes.
+  (** Successive [compute] calls on the same annotator (each with its own stream); the state
+      after every call. *)
+  Fixpoint run_phases (st : state) (phases : list (list node)) : list state :=
+    match phases with
+    | [] => []
+    | ns :: t => let st' := run_phase st ns in st' :: run_phases st' t
+    end.
   Definition annotate (start nlines : nat) (nodes : list node) : list origin :=
-    let st := init_state start nlines in
-    st_olm (process_nodes (mk_state (st_olm st) (st_srcs st) 0) nodes).
+    st_olm (run_phase (init_state start nlines) nodes).
 End Run.
 
 (* ------------------------------------------------------------------ the case *)
@@ -166,16 +176,21 @@ Record case := mk_case {
   c_graph : list (list N);                 (* parents per commit, creation order, 0 = root *)
   c_texts : list (list N);                 (* file content (bytes) of every commit *)
   c_start : N;                             (* starting commit *)
-  c_nodes : list (N * list (N * N));       (* impl: the graph stream of the searched revset *)
+  c_phases : list (list (N * list (N * N)));  (* impl: per compute() call, the graph stream of
+                                                 the revset that call searches *)
   c_match : list ((N * N) * list (N * N * N));  (* impl: by-line matching per (commit, target) *)
-  c_origins : list (bool * N * N);         (* impl: FileAnnotation::line_origins *)
+  c_origins : list (list (bool * N * N));  (* impl: line_origins() after every call *)
+  c_pending : list (list N);               (* impl: pending_commits() after every call *)
   c_text : list N;                         (* impl: FileAnnotation::text *)
 }.
 
 Definition n2 (p : N * N) : nat * nat := (N.to_nat (fst p), N.to_nat (snd p)).
 Definition case_graph (c : case) : graph := map (map N.to_nat) (c_graph c).
-Definition case_nodes (c : case) : list node :=
-  map (fun nd => (N.to_nat (fst nd), map n2 (snd nd))) (c_nodes c).
+Definition to_nodes (l : list (N * list (N * N))) : list node :=
+  map (fun nd => (N.to_nat (fst nd), map n2 (snd nd))) l.
+Definition case_phases (c : case) : list (list node) := map to_nodes (c_phases c).
+(** all nodes of all calls *)
+Definition case_nodes (c : case) : list node := concat (case_phases c).
 Definition case_text (c : case) (x : nat) : text := lines_of (nth x (c_texts c) []).
 Definition case_matching (c : case) (x p : nat) : list range3 :=
   match find (fun e => Nat.eqb (N.to_nat (fst (fst e))) x && Nat.eqb (N.to_nat (snd (fst e))) p)
@@ -183,8 +198,10 @@ Definition case_matching (c : case) (x p : nat) : list range3 :=
   | Some e => map (fun r => (N.to_nat (fst (fst r)), N.to_nat (snd (fst r)), N.to_nat (snd r))) (snd e)
   | None => []
   end.
-Definition case_origins (c : case) : list origin :=
-  map (fun o => mk_origin (fst (fst o)) (N.to_nat (snd (fst o))) (N.to_nat (snd o))) (c_origins c).
+Definition to_origins (l : list (bool * N * N)) : list origin :=
+  map (fun o => mk_origin (fst (fst o)) (N.to_nat (snd (fst o))) (N.to_nat (snd o))) l.
+Definition case_origins (c : case) : list (list origin) := map to_origins (c_origins c).
+Definition case_pending (c : case) : list (list nat) := map (map N.to_nat) (c_pending c).
 
 Definition nth_line (t : text) (i : nat) : option line := nth_error t i.
 
@@ -256,22 +273,35 @@ Definition prop_ok (c : case) (os : list origin) (txt : text) : bool :=
   && list_eqb line_eqb txt (case_text c start)
   && origins_ok_from c 0 os.
 
-(** Strict form of the last clause: an unresolved origin is the target of a missing edge —
-    a commit outside the searched range (never the placeholder naming the start). *)
-Definition strict_ok (c : case) (os : list origin) : bool :=
-  forallb (fun o => o_ok o ||
-                    existsb (fun nd => existsb (fun e => is_missing e && Nat.eqb (fst e) (o_commit o))
-                                               (snd nd)) (case_nodes c)) os.
-
-Definition okb (c : case) : bool :=
-  prop_ok c (case_origins c) (lines_of (c_text c)) && strict_ok c (case_origins c).
-
-(** Further validity of the recorded stream (hypotheses of the strict theorem, checked per
-    case): node commits are pairwise distinct, no node is the target of a missing edge,
-    every non-missing edge target appears later in the stream, and the starting commit is a
-    node. *)
 Definition is_mtb (nodes : list node) (p : nat) : bool :=
   existsb (fun nd => existsb (fun e => is_missing e && Nat.eqb (fst e) p) (snd nd)) nodes.
+
+(** Strict form of the last clause, per call: an unresolved origin is the target of a
+    missing edge of THIS call's stream — a commit outside the range this call searched (never
+    the placeholder naming the start, never a root left over from an earlier, narrower
+    call) — and every commit still pending is such a target. *)
+Definition strict_ok (nodes : list node) (os : list origin) : bool :=
+  forallb (fun o => o_ok o || is_mtb nodes (o_commit o)) os.
+Definition pending_ok (nodes : list node) (pend : list nat) : bool :=
+  forallb (is_mtb nodes) pend.
+
+Fixpoint phases_okb (c : case) (phases : list (list node)) (oss : list (list origin))
+         (pends : list (list nat)) : bool :=
+  match phases, oss, pends with
+  | [], [], [] => true
+  | ns :: pt, os :: ot, pd :: dt =>
+      prop_ok c os (lines_of (c_text c)) && strict_ok ns os && pending_ok ns pd
+      && phases_okb c pt ot dt
+  | _, _, _ => false
+  end.
+Definition okb (c : case) : bool :=
+  phases_okb c (case_phases c) (case_origins c) (case_pending c).
+
+(** Further validity of the recorded streams (hypotheses of the strict theorem, checked per
+    case along the model's run): in every call the node commits are pairwise distinct, no
+    node is the target of a missing edge, every non-missing edge target appears later in the
+    stream, and every commit pending at the start of the call (the starting commit for the
+    first call) is a node of the call's stream. *)
 Fixpoint nodupb (l : list nat) : bool :=
   match l with
   | [] => true
@@ -284,14 +314,13 @@ Fixpoint closedb (l : list node) : bool :=
       forallb (fun e => is_missing e || existsb (fun nd' => Nat.eqb (fst nd') (fst e)) t) (snd nd)
       && closedb t
   end.
-Definition stream_okb (c : case) : bool :=
-  let nodes := case_nodes c in
+Definition phase_okb (st : state) (nodes : list node) : bool :=
   nodupb (map fst nodes)
   && forallb (fun nd => negb (is_mtb nodes (fst nd))) nodes
   && closedb nodes
-  && existsb (fun nd => Nat.eqb (fst nd) (N.to_nat (c_start c))) nodes.
+  && forallb (fun kv => existsb (fun nd => Nat.eqb (fst nd) (fst kv)) nodes) (st_srcs st).
 
-(** The shape on which the behaviour before the repair went wrong: two nodes of the searched
+(** The shape on which the behaviour before the repair went wrong: two nodes of a searched
     graph have a missing edge to the same omitted parent. *)
 Definition shared_omitted_parent (c : case) : bool :=
   let missing_targets nd := map fst (filter is_missing (snd nd)) in
@@ -300,15 +329,30 @@ Definition shared_omitted_parent (c : case) : bool :=
       existsb (fun p => existsb (Nat.eqb p) (missing_targets nd2)) (missing_targets nd1))
     (case_nodes c)) (case_nodes c).
 
-Definition model_origins (c : case) : list origin :=
-  let start := N.to_nat (c_start c) in
-  annotate (case_matching c) false start (length (case_text c start)) (case_nodes c).
-(** what the code computed before the repair (kept for the refuted witness) *)
-Definition model_origins_old (c : case) : list origin :=
-  let start := N.to_nat (c_start c) in
-  annotate (case_matching c) true start (length (case_text c start)) (case_nodes c).
+Definition case_init (c : case) : state :=
+  let start := N.to_nat (c_start c) in init_state start (length (case_text c start)).
+Definition model_states (c : case) : list state :=
+  run_phases (case_matching c) false (case_init c) (case_phases c).
+(** what the code computed before the repair 26901e2 (kept for the refuted witness) *)
+Definition model_states_old (c : case) : list state :=
+  run_phases (case_matching c) true (case_init c) (case_phases c).
+Definition model_origins (c : case) : list (list origin) := map st_olm (model_states c).
+Definition model_origins_old (c : case) : list (list origin) := map st_olm (model_states_old c).
+
+Fixpoint stream_okb_from (m : nat -> nat -> list range3) (st : state) (phases : list (list node)) : bool :=
+  match phases with
+  | [] => true
+  | ns :: t => phase_okb st ns && stream_okb_from m (run_phase m false st ns) t
+  end.
+Definition stream_okb (c : case) : bool :=
+  stream_okb_from (case_matching c) (case_init c) (case_phases c).
+
+Definition set_eqb (a b : list nat) : bool :=
+  forallb (fun x => existsb (Nat.eqb x) b) a && forallb (fun x => existsb (Nat.eqb x) a) b
+  && Nat.eqb (length a) (length b).
 
 Definition check_case (c : case) : N :=
   let c1 := inputs_ok c && stream_okb c in
-  let c2 := list_eqb origin_eqb (model_origins c) (case_origins c) in
-  verdict (c1 && c2) (okb c) false (if c1 then 2 else 1).
+  let c2 := list_eqb (list_eqb origin_eqb) (model_origins c) (case_origins c) in
+  let c3 := list_eqb set_eqb (map (fun st => map fst (st_srcs st)) (model_states c)) (case_pending c) in
+  verdict (c1 && c2 && c3) (okb c) false (if negb c1 then 1 else if negb c2 then 2 else 3).
